@@ -57,6 +57,7 @@ type RelDef struct {
 type Model struct {
 	Types map[string]map[string]*RelDef `json:"types"` // type -> rel -> def
 	Conds bool                          `json:"conds,omitempty"`
+	Flat  bool                          `json:"flat,omitempty"` // member of FlatFamily (single-object universe)
 }
 
 func (e *Expr) String() string {
